@@ -50,6 +50,29 @@ pub fn dbg_exe() -> Option<String> {
     }
 }
 
+pub const ALT_FLAVOURS: [&str; 5] = ["alt_rem_half", "alt_no_pin_zero", "alt_no_hash_turbo", "alt_lfu", "alt_lru"];
+
+/// binary of the harness built against an alternative cargo feature set of the crate
+pub fn alt_exe(name: &str) -> Option<String> {
+    let me = std::env::current_exe().ok()?;
+    let s = me.to_string_lossy().to_string();
+    let idx = s.find("/target")?;
+    let p = format!("{}/target-alt/bin/abysim-{}", &s[..idx], name);
+    if std::path::Path::new(&p).exists() {
+        Some(p)
+    } else {
+        None
+    }
+}
+
+pub fn flavour_exe(flavour: &str) -> Option<String> {
+    match flavour {
+        "" => None,
+        "dbg" => dbg_exe(),
+        other => alt_exe(other),
+    }
+}
+
 pub struct ExecResult {
     pub violation: Option<Violation>,
     pub inconclusive: Option<String>,
@@ -166,7 +189,10 @@ pub fn load_findings() -> Vec<Finding> {
 // ---------------- minimisation ----------------
 
 fn same_sig(r: &ExecResult, sig: &str) -> bool {
-    let sig = sig.strip_suffix("+dbg").unwrap_or(sig);
+    let sig = match sig.rfind('+') {
+        Some(p) if sig[p + 1..].starts_with("dbg") || sig[p + 1..].starts_with("alt_") => &sig[..p],
+        _ => sig,
+    };
     r.violation.as_ref().map(|v| v.signature == sig).unwrap_or(false)
 }
 
@@ -379,11 +405,7 @@ pub fn cleanup_stale() {
 
 pub fn run_check(cfg: &CheckCfg) -> CheckResult {
     cleanup_stale();
-    if cfg.flavour == "dbg" {
-        set_exec_exe(dbg_exe());
-    } else {
-        set_exec_exe(None);
-    }
+    set_exec_exe(flavour_exe(&cfg.flavour));
     let r = run_check_inner(cfg);
     set_exec_exe(None);
     r
@@ -554,9 +576,9 @@ fn run_check_inner(cfg: &CheckCfg) -> CheckResult {
     let findings = load_findings();
     found.sort_by(|a, b| (a.index, a.sub).cmp(&(b.index, b.sub)));
     let mut by_sig: BTreeMap<String, Vec<usize>> = BTreeMap::new();
-    if cfg.flavour == "dbg" {
+    if !cfg.flavour.is_empty() {
         for f in found.iter_mut() {
-            f.violation.signature = format!("{}+dbg", f.violation.signature);
+            f.violation.signature = format!("{}+{}", f.violation.signature, cfg.flavour);
         }
     }
     for (i, f) in found.iter().enumerate() {
@@ -569,7 +591,12 @@ fn run_check_inner(cfg: &CheckCfg) -> CheckResult {
     let replay_dir = format!("{}/replays", verif_dir());
     let t_min = Instant::now();
     for (sig, idxs) in by_sig.iter() {
-        if let Some(k) = findings.iter().find(|k| k.property == cfg.prop && k.sig == *sig) {
+        // a finding is keyed on the violation signature without the build-flavour suffix
+        let base_sig = match sig.rfind('+') {
+            Some(p) if sig[p + 1..].starts_with("dbg") || sig[p + 1..].starts_with("alt_") => &sig[..p],
+            _ => sig.as_str(),
+        };
+        if let Some(k) = findings.iter().find(|k| k.property == cfg.prop && k.sig == base_sig) {
             known_lines.insert(format!("KNOWN-FINDING: property={} sig={} {} [{} runs]", cfg.prop, k.sig, k.text, idxs.len()));
             continue;
         }
@@ -612,9 +639,9 @@ fn run_check_inner(cfg: &CheckCfg) -> CheckResult {
                     (ep.clone(), f.violation.clone(), false)
                 };
                 let mut viol = viol;
-                if cfg.flavour == "dbg" && !viol.signature.ends_with("+dbg") {
-                    viol.signature = format!("{}+dbg", viol.signature);
-                    viol.detail = format!("[build with debug assertions] {}", viol.detail);
+                if !cfg.flavour.is_empty() && !viol.signature.ends_with(&format!("+{}", cfg.flavour)) {
+                    viol.signature = format!("{}+{}", viol.signature, cfg.flavour);
+                    viol.detail = format!("[build flavour {}] {}", cfg.flavour, viol.detail);
                 }
                 let rf = ReplayFile { property: cfg.prop.clone(), tier: cfg.tier.name().to_string(), base_seed: cfg.seed, run_index: f.index, episode: min_ep, violation: viol.clone(), minimised, original_steps: orig_steps, flavour: cfg.flavour.clone() };
                 std::fs::write(&path, serde_json::to_string_pretty(&rf).unwrap()).expect("write replay file");
@@ -726,19 +753,19 @@ pub fn replay_main(path: &str) -> i32 {
             return 2;
         }
     };
-    if rf.flavour == "dbg" {
-        match dbg_exe() {
+    if !rf.flavour.is_empty() {
+        match flavour_exe(&rf.flavour) {
             Some(e) => set_exec_exe(Some(e)),
             None => {
-                eprintln!("harness: the debug-assertions flavour is not built (cargo build --profile dbg)");
+                eprintln!("harness: the build flavour {} of the harness is not built (see ./check)", rf.flavour);
                 return 2;
             }
         }
     }
     let mut r = exec_file_p(path, 120, rf.episode.steps.len() as u32, &rf.episode.profile);
-    if rf.flavour == "dbg" {
+    if !rf.flavour.is_empty() {
         if let Some(v) = r.violation.as_mut() {
-            v.signature = format!("{}+dbg", v.signature);
+            v.signature = format!("{}+{}", v.signature, rf.flavour);
         }
     }
     match &r.violation {
